@@ -177,11 +177,20 @@ class ConsClient(RecClient):
     role = 'C'
 
 
+class ReRegistry(world.PathElementRegistry):
+    """dispatcher of an application-supplied server: a consumer that starts again may register its path again
+    (SdcConsumer.stop_all does not deregister from a shared server)"""
+
+    def register_instance(self, path_element, instance):
+        self._instances[path_element] = instance
+
+
 class SharedServer(FakeHttpServer):
     """an HTTP server supplied by the application; TLS iff the application says so (scheme)"""
 
     def __init__(self, net, scheme):
         super().__init__(net, scheme=scheme)
+        self.dispatcher = ReRegistry()
         self.tls = scheme == 'https'
 
 
@@ -197,10 +206,13 @@ class FakeHttpd(FakeHttpServer):
         self.socket = ListenSocket()
         self.threads = []
         self._shut = threading.Event()
+        self.forced_tls = None          # set by the scenario operation 'flip': another peer answers at this address
         FakeHttpd.instances.append(self)
 
     @property
     def tls(self):
+        if self.forced_tls is not None:
+            return self.forced_tls
         return isinstance(self.socket, WrappedSocket) and self.socket.server_side
 
     def serve_forever(self):
@@ -339,9 +351,11 @@ class Run:
         # park it, so that the provider contacts the consumer only when the scenario says so
         from tutorial.productandroles import alarmprovider
         alarmprovider.AlertSystemStateMaintainer.WORKER_THREAD_INTERVAL = 3600.0
-        self.ftime = FastTime()
-        c_subscription.time = self.ftime
-        subscriptionmgr_base.time = self.ftime
+        self.ctime = FastTime()         # consumer side and provider side are woken separately
+        self.ptime = FastTime()
+        c_subscription.time = self.ctime
+        subscriptionmgr_base.time = self.ptime
+        self.running = False
         self.wraps = []
         self.advs = []         # scraped from API results
         self.tr = {'phases': []}
@@ -449,37 +463,58 @@ class Run:
             tr['ctor'] = exc_name(ex)
             return self.finish()
         cons = self.consumer
-        try:
-            cons.start_all(shared_http_server=self.c_shared)
-            tr['start'] = 'ok'
-        except Exception as ex:  # noqa: BLE001
-            tr['start'] = exc_name(ex)
-            tr['start_msg'] = str(ex)[:200]
+        tr['starts'] = []
+        self.do_start(False)
+        tr['start'] = tr['starts'][0]
+        for op in c['ops']:
+            t0 = _time.monotonic()
+            try:
+                self.phase(op[0], self.do_op(op))
+            except Exception as ex:  # noqa: BLE001
+                self.phase(op[0], exc_name(ex))
+            self.tr['phases'][-1].append(round(_time.monotonic() - t0, 2))
         tr['isc'] = cons.is_ssl_connection
-        if tr['start'] == 'ok':
-            srv = cons._http_server
-            tr['c_listen_tls'] = bool(srv.tls if self.c_shared is not None else srv.httpd.tls)
+        tr['running'] = self.running
+        if self.running:
+            tr['c_listen_tls'] = self.sink_tls()
             tr['c_base_url'] = list(_scheme_host(cons.base_url))[:2]
-            for op in c['ops']:
-                t0 = _time.monotonic()
-                try:
-                    self.phase(op[0], self.do_op(op))
-                except Exception as ex:  # noqa: BLE001
-                    self.phase(op[0], exc_name(ex))
-                self.tr['phases'][-1].append(round(_time.monotonic() - t0, 2))
         # shutdown
-        self.ftime.wake.set()
+        self.ctime.wake.set()
+        self.ptime.wake.set()
         try:
             if c['shutdown'] == 'provider_first':
                 self.provider.stop_all(send_subscription_end=True)
                 cons.stop_all(unsubscribe=False)
             else:
-                cons.stop_all(unsubscribe=tr['start'] == 'ok')
+                cons.stop_all(unsubscribe=self.running)
                 self.provider.stop_all(send_subscription_end=True)
             self.phase('shutdown', 'ok')
         except Exception as ex:  # noqa: BLE001
             self.phase('shutdown', exc_name(ex))
         return self.finish()
+
+    def sink_tls(self):
+        srv = self.consumer._http_server
+        return bool(srv.tls if self.c_shared is not None else srv.httpd.tls)
+
+    def do_start(self, again):
+        """start_all on a stopped consumer (again=False) or restart() (again=True); records the outcome"""
+        cons = self.consumer
+        self.ctime.wake.set()           # restart() stops the subscription manager thread first: do not wait for it
+        try:
+            if again:
+                cons.restart()
+            else:
+                cons.start_all(shared_http_server=self.c_shared)
+            self.running = True
+            self.tr['starts'].append('ok')
+        except Exception as ex:  # noqa: BLE001
+            self.running = False
+            self.tr['starts'].append(exc_name(ex))
+            self.tr.setdefault('start_msgs', []).append(str(ex)[:200])
+        finally:
+            self.ctime.wake.clear()
+        return self.tr['starts'][-1]
 
     def subscriptions(self):
         mgr = self.consumer.subscription_mgr
@@ -488,6 +523,28 @@ class Run:
     def do_op(self, op):
         cons = self.consumer
         kind = op[0]
+        # ---- life cycle
+        if kind == 'flip':              # another kind of peer (TLS <-> plaintext) answers at the provider address
+            srv = self.provider._http_server
+            if self.p_shared is not None:
+                srv.tls = not srv.tls
+            else:
+                srv.httpd.forced_tls = not srv.httpd.tls
+            return 'tls' if (srv.tls if self.p_shared is not None else srv.httpd.tls) else 'plain'
+        if kind == 'start':
+            return 'noop' if self.running else self.do_start(False)
+        if kind == 'restart':
+            return self.do_start(True)
+        if not self.running:
+            return 'stopped'            # a stopped consumer is not used
+        if kind == 'stop':
+            self.ctime.wake.set()
+            try:
+                cons.stop_all(unsubscribe=True)
+            finally:
+                self.running = False
+                self.ctime.wake.clear()
+            return 'ok'
         if kind == 'probe':
             r = cons.send_probe()
             return 'ok' if r.ProbeMatch else 'empty'
@@ -499,7 +556,7 @@ class Run:
                 return sum(1 for a in list(self.net.attempts) if a['role'] == 'P')
             n_att = n_p_attempts()
             fut = cons.client('Set').set_string(self.op_handle, '169.254.0.%d' % (op[1] % 250))
-            reachable = (self.p_cont is not None) == self.tr['c_listen_tls']
+            reachable = (self.p_cont is not None) == self.sink_tls()
             if reachable:
                 res = fut.result(timeout=60)
                 return 'ok:' + str(res.InvocationInfo.InvocationState.value)
@@ -508,7 +565,8 @@ class Run:
             # attempt is already on record)
             action = self.provider.mdib.sdc_definitions.Actions.OperationInvokedReport
             live = [s for mgr in self.provider._subscriptions_managers.values()
-                    for s in list(mgr._subscriptions.objects) if s.is_valid and s.matches(action)]
+                    for s in list(mgr._subscriptions.objects)
+                    if s.is_valid and s.unsubscribed_at is None and s.matches(action)]
             t_end = _time.monotonic() + (60 if live else 0.2)
             while _time.monotonic() < t_end and n_p_attempts() == n_att:
                 _time.sleep(0.005)
